@@ -126,6 +126,7 @@ class Acc(object):
 
 
 MAX_VIOL_PER_UNIT = 40
+UNIT_TIMEOUT = int(os.environ.get('MC_UNIT_TIMEOUT', '900'))
 
 
 def explore(check, unit, acc, seed=0):
@@ -232,8 +233,17 @@ def run_check(check, tier, seed, workers=None, budget=None, out=sys.stdout):
     else:
         ctx = multiprocessing.get_context('fork')
         pool = ctx.Pool(workers, initializer=_worker_init)
+        hang = False
         try:
-            for res in pool.imap_unordered(_run_unit, units, chunksize=1):
+            it = pool.imap_unordered(_run_unit, units, chunksize=1)
+            while done_units < len(units):
+                try:
+                    res = it.next(timeout=UNIT_TIMEOUT)
+                except multiprocessing.TimeoutError:
+                    hang = True
+                    break
+                except StopIteration:
+                    break
                 agg.merge(res)
                 done_units += 1
                 if budget and time.time() - t0 > budget:
@@ -242,6 +252,13 @@ def run_check(check, tier, seed, workers=None, budget=None, out=sys.stdout):
         finally:
             pool.terminate()
             pool.join()
+        if hang:
+            # no unit finished for UNIT_TIMEOUT seconds (units take seconds): some execution of the real code does not terminate
+            exhaustive = False
+            agg.nviol += 1
+            agg.violations.append({'signature': '%s|execution-does-not-terminate' % check.ID, 'size': 0,
+                                   'case': {'hang': True, 'units_done': done_units, 'units': len(units)},
+                                   'detail': {'note': 'no unit completed within %d s' % UNIT_TIMEOUT}})
     wall = time.time() - t0
 
     if agg.harness_errors:
@@ -264,6 +281,11 @@ def run_check(check, tier, seed, workers=None, budget=None, out=sys.stdout):
     lines = []
     for sig in sorted(by_sig):
         v = by_sig[sig][1]
+        if isinstance(v['case'], dict) and v['case'].get('hang'):
+            path = write_replay(check, v, counts[sig])
+            new_violations += 1
+            lines.append('VIOLATION property=%s replay=%s signature=%s cases=%d' % (check.ID, path, sig, counts[sig]))
+            continue
         # replay twice in this process before believing it
         confirmed = []
         for _ in range(2):
